@@ -29,6 +29,7 @@ CONSTANTS W,            \* workers 0..W-1
           ConnErrIsFatal,       \* FALSE (NEG) aborted/reset/refused treated like EMFILE
           WakeSkipsAcceptAll,   \* FALSE (NEG) WorkerAvailable only sets the bit
           PauseKeepsRegistered, \* FALSE (NEG)
+          ResendWithoutCheck,   \* FALSE (NEG) after a failed send the connection goes straight to the handle swapped into the slot
           ReportOnlyIfBitSet,   \* FALSE (NEG) a removed handle is reported to the server only if its availability bit was still set
           JumpToFirstAvailable, \* FALSE (NEG) a saturated worker is skipped by jumping to the LOWEST available slot
           ResetSeparate,        \* FALSE (NEG) the waker queue is reset in a critical section of its own, after the empty pop
@@ -439,7 +440,7 @@ ASend ==
                              /\ closed' = closed \cup {inHand} /\ inHand' = 0
                              /\ apc' = "acc" /\ UNCHANGED <<next, cur, tokLeft>>
                         ELSE /\ next' = (IF Len(handles) - 1 <= next THEN 0 ELSE next)
-                             /\ apc' = (IF forced THEN "send" ELSE "one")
+                             /\ apc' = (IF forced \/ ResendWithoutCheck THEN "send" ELSE "one")
                              /\ UNCHANGED <<inHand, closed, cur, tokLeft>>
                    /\ rrWindow' = <<>>
                    /\ UNCHANGED <<chan, counter, dispatchLog>>
@@ -555,6 +556,8 @@ BetweenW(p, i) == IF i > p THEN {w \in Workers : p < w /\ w < i} ELSE {w \in Wor
 C04_CyclicStep ==
   (act'.n = "ASend" /\ act'.x = "ok" /\ ~everFaulted /\ Len(handles) = W /\ dispatchLog # <<>>) =>
      \A w \in BetweenW(dispatchLog[Len(dispatchLog)][2], act'.i) : ~avail[w]
+\* a connection is sent only to a worker that is marked available - or, when nobody is, to the worker in turn (forced)
+C04_SendOnlyToMarkedStep == (act'.n = "ASend" /\ act'.x = "ok") => (avail[act'.i] \/ forced)
 C04_SaturatedGetsNothingStep ==
   (act'.n = "ASend" /\ act'.x = "ok" /\ ~everFaulted) => Load(act'.i) < Limit
 
@@ -578,7 +581,7 @@ C08_FaultReportedOnce == Distinct(cmdq) /\ Len(cmdq) <= nfaults
 C08_NoLostIndex == \A i \in Workers :
   InHandles(i) \/ (\E k \in 1..Len(cmdq) : cmdq[k] = i) \/ (\E k \in 1..Len(wq) : wq[k] = <<"WK", i>>)
 
-Steps == [][C04_SaturatedGetsNothingStep /\ C04_CyclicStep /\ C05_PausedNoDispatchStep /\ C08_DeadGetsNothingStep]_vars
+Steps == [][C04_SaturatedGetsNothingStep /\ C04_SendOnlyToMarkedStep /\ C04_CyclicStep /\ C05_PausedNoDispatchStep /\ C08_DeadGetsNothingStep]_vars
 
 (* ---------------- TLC plumbing ---------------- *)
 LogEdge == PrintT(<<"EDGE", ToJson([from |-> View, act |-> act', to |-> View', q |-> Quiescent'])>>)
